@@ -9,7 +9,7 @@ package flood
 // verification of exactly its signable bytes, signature and timestamp ----
 
 //@ func (*Flooder).verifySleepCommand
-//@ prop C28
+//@ prop C28 C29
 //@ after call SignableBytes let sb = $ret
 //@ after call time.Since let age = $ret
 //@ after call crypto.Verify let sigOK = $ret
@@ -19,7 +19,7 @@ package flood
 //@ ensures err == nil && f.signingPubKey != nil ==> sigOK && abs(age) <= f.timestampWindow
 
 //@ func (*Flooder).verifyWakeCommand
-//@ prop C28
+//@ prop C28 C29
 //@ after call SignableBytes let sb = $ret
 //@ after call time.Since let age = $ret
 //@ after call crypto.Verify let sigOK = $ret
